@@ -5,6 +5,7 @@ import re
 from ..core import AnalysisError, dotted, walk_no_nested
 from ..cfg import CFG, cond_guards
 from ..util import if_chain, calls_in, local_defs, depends_on, const_val, NOVAL, names_in, truth_under
+from .. import facts
 
 ASSUMPTIONS = [
     '`git config <key> <value>` replaces a single-valued key idempotently; `--unset`/`--remove-section` act only on the named key/section (git semantics, trusted)',
@@ -245,6 +246,82 @@ def _run_base(ctx):
         raise AnalysisError('config-git arm not found in main_dispatch')
 
 
+
+def xdg_fallback_by_truthiness(ctx, rule):
+    """git reads $XDG_CONFIG_HOME/git/attributes and treats an EMPTY XDG_CONFIG_HOME like an unset one ($HOME/.config).
+    locate_gitattributes must therefore choose the fallback by the truthiness of the variable; `os.environ.get(name, default)`
+    only falls back when the variable is absent and turns XDG_CONFIG_HOME="" into the relative path git/attributes."""
+    repo = ctx.repo
+    fn = repo.func('nbdime.utils:locate_gitattributes')
+    n = 0
+    for c in calls_in(fn):
+        d = dotted(c.func) or ''
+        is_get = d in ('os.environ.get', 'os.getenv', 'environ.get') and c.args and const_val(c.args[0]) == 'XDG_CONFIG_HOME'
+        if not is_get:
+            continue
+        n += 1
+        has_default = len(c.args) > 1 and not (isinstance(c.args[1], ast.Constant) and c.args[1].value in (None, ''))
+        # the value must be consulted as a condition: an if/ifexp test or the left operand of `or`
+        p = repo.parent(c)
+        as_test = (isinstance(p, (ast.If, ast.IfExp)) and p.test is c) or (isinstance(p, ast.BoolOp) and isinstance(p.op, ast.Or) and p.values[0] is c) or \
+            (isinstance(p, ast.UnaryOp) and isinstance(p.op, ast.Not))
+        if not as_test and isinstance(p, ast.Assign) and len(p.targets) == 1 and isinstance(p.targets[0], ast.Name):
+            nm = p.targets[0].id
+            as_test = any((isinstance(t, (ast.If, ast.IfExp)) and isinstance(t.test, ast.Name) and t.test.id == nm) or
+                          (isinstance(t, ast.BoolOp) and isinstance(t.op, ast.Or) and isinstance(t.values[0], ast.Name) and t.values[0].id == nm)
+                          for t in ast.walk(fn))
+        ok = as_test and not has_default
+        ctx.inst(rule, 'nbdime.utils:locate_gitattributes', repo.norm(c), ok,
+                 'the fallback to ~/.config is chosen when the variable is unset OR empty, as git does' if ok else
+                 'XDG_CONFIG_HOME="" (set but empty) is used as is: the attributes line is written to the relative path git/attributes in the working directory '
+                 'while git itself reads $HOME/.config/git/attributes, so --global enabling never takes effect', c)
+    if n == 0:
+        raise AnalysisError('locate_gitattributes: XDG_CONFIG_HOME lookup not found')
+
+
+def no_shared_command_state(ctx, rule):
+    """The `git config` argument vectors are built per call.  A module-level list that functions extend in place
+    (`cmd = BASE; cmd += [...]`, `.append`, `.extend`) keeps the scope flag of an earlier call: after one --global operation
+    every later repository-scope operation in the process edits the global configuration."""
+    repo, cg = ctx.repo, ctx.cg
+    G = facts.module_globals(repo, cg)
+    mods = sorted(set(MODS.values()) | {'nbdime.vcs.git', 'nbdime.utils'})
+    n = 0
+    for fid, fn in sorted(repo.functions.items()):
+        if fid.split(':')[0] not in mods:
+            continue
+        n += 1
+        defs = local_defs(fn)
+
+        def global_of(e, seen=()):
+            if isinstance(e, ast.Name):
+                for t in cg.resolve(e, fn):
+                    if t[0] == 'value' and t[1] in G and G[t[1]]['ctor'] in ('list', 'dict', 'set'):
+                        return t[1]
+                if e.id not in seen:
+                    for v, k, st in defs.get(e.id, []):
+                        if k == 'assign' and isinstance(v, ast.Name):
+                            r = global_of(v, seen + (e.id,))
+                            if r:
+                                return r
+            return None
+        bad = None
+        for x in walk_no_nested(fn):
+            if isinstance(x, ast.AugAssign) and isinstance(x.target, ast.Name):
+                g_ = global_of(x.target)
+                if g_ and not any(k == 'assign' and not isinstance(v, ast.Name) for v, k, st in defs.get(x.target.id, [])):
+                    bad = (x, g_)
+            if isinstance(x, ast.Call) and isinstance(x.func, ast.Attribute) and x.func.attr in facts.MUTATORS:
+                g_ = global_of(x.func.value)
+                if g_ and isinstance(x.func.value, ast.Name) and not any(k == 'assign' and not isinstance(v, ast.Name) for v, k, st in defs.get(x.func.value.id, [])):
+                    bad = (x, g_)
+        ctx.inst(rule, fid, 'in-place changes of module-level containers: %s' % ('%s -> %s.%s' % (repo.norm(bad[0])[:60], bad[1][0], bad[1][1]) if bad else 'none'), bad is None,
+                 'argument vectors are built fresh on every call' if bad is None else
+                 'this extends the module-level object %s.%s in place: flags added for one call (e.g. --global) stay for every later call in the process, '
+                 'so a repository-scope enable/disable silently edits the global configuration' % bad[1], bad[0] if bad else fn, nontrivial=False)
+    if n < 8:
+        raise AnalysisError('fewer functions than expected in the git integration modules')
+
 def run(ctx):
     """R18.6: "nothing to remove / already set" is not a failure of a config subcommand.
 
@@ -253,6 +330,8 @@ def run(ctx):
     disabling a part that was never enabled.  So either the config arm of each command returns a constant 0 after calling the
     enable/disable function, or (if it forwards that function's result) no enable/disable function returns the status of a
     git command."""
+    ctx.rule('R18.9', 'the global attributes file follows git: an empty XDG_CONFIG_HOME counts as unset (fallback chosen by truthiness, not by a dict.get default)', floor=1)
+    ctx.rule('R18.10', 'git config argument vectors are built per call: no function of the git integration extends a module-level container in place', floor=8)
     ctx.rule('R18.8', 'name binding: every global name a function refers to is bound at module level or builtin, and every local is assigned on every path before it is read', floor=4)
     ctx.rule('R18.7', 'every exactly resolved call binds against its callee\'s signature (no missing/unknown/surplus argument on any arm)', floor=3)
     ctx.rule('R18.6', 'a config subcommand does not turn "already absent" into a non-zero status (which would stop the config-git chain before the other drivers/tools are handled)', floor=4)
@@ -298,3 +377,5 @@ def run(ctx):
     call_compat(ctx, 'R18.7', ['nbdime.vcs.git.', 'nbdime.__main__'], 'the config command aborts half-way, leaving some drivers configured and others not')
     from ..names import name_binding
     name_binding(ctx, 'R18.8', ['nbdime.vcs.git.', 'nbdime.__main__'])
+    xdg_fallback_by_truthiness(ctx, 'R18.9')
+    no_shared_command_state(ctx, 'R18.10')
